@@ -263,7 +263,7 @@ theorem jw_bwWrite (P : Params) (st : St) (sbn : Nat) (blk : Block) (w : BW) {st
 /-- conclusion of C09 `complete_only_when_all_written` / C03 `md5_mismatch_errors` -/
 structure Done (P : Params) (st : St) : Prop where
   len : st.cenc = some .null → ∃ T, st.tl = some T ∧ st.written.length = T
-  md5 : ∀ m, st.md5 = some m → st.md5Check = true → st.tl ≠ some 0 → P.md5 st.written = m
+  md5 : ∀ m, st.md5 = some m → st.md5Check = true → P.md5 st.written = m
   /-- an announced Content-Length is exactly the number of bytes written (any cenc; not checked for an empty transfer) -/
   cl : ∀ n, st.cl = some n → st.tl ≠ some 0 → st.written.length = n
 
@@ -316,7 +316,7 @@ theorem JOpen.sameJ {st st' : St} (h : JOpen st) (s : SameJ st st') : JOpen st' 
 theorem Done.sameJ {P : Params} {st st' : St} (h : Done P st) (s : SameJ st st') : Done P st' := by
   constructor
   · rw [s.cenc, s.tl, St.written, s.out]; exact h.len
-  · rw [s.md5, s.md5Check, s.tl, St.written, s.out]; exact h.md5
+  · rw [s.md5, s.md5Check, St.written, s.out]; exact h.md5
   · rw [s.cl, s.tl, St.written, s.out]; exact h.cl
 
 theorem JInv.sameJ {P : Params} {st st' : St} (h : JInv P st) (s : SameJ st st') : JInv P st' := by
@@ -363,7 +363,7 @@ theorem jinv_complete_none {P : Params} {st : St} (h : JInv P st) (hn : st.write
   refine ⟨fun _ => ⟨by simpa using this.1, by simpa [hn] using this.2⟩, ?_, ?_, ?_⟩ <;> simp [hn]
 
 theorem jinv_complete_zero {P : Params} {st : St} (h : JInv P st) (ho : st.writer = some .opened)
-    (htl : st.tl = some 0) : JInv P (complete st) := by
+    (htl : st.tl = some 0) (hv : emptyMd5Valid P st = true) : JInv P (complete st) := by
   have jo := h.opened ho
   obtain ⟨T, C, h1, h2, h3, _⟩ := jo.ex
   have hT : T = 0 := by rw [h1] at htl; simpa using htl
@@ -371,7 +371,12 @@ theorem jinv_complete_zero {P : Params} {st : St} (h : JInv P st) (ho : st.write
   refine ⟨?_, ?_, ?_, ?_⟩ <;> simp [ho]
   constructor
   · intro _; exact ⟨0, by simpa using htl, by simp [hw]⟩
-  · intro m _ _ hne; simp [htl] at hne
+  · intro m hm hchk
+    simp only [complete_md5] at hm
+    simp only [complete_md5Check] at hchk
+    simp only [emptyMd5Valid, hm, hchk] at hv
+    have hm' : m = P.md5 [] := by simpa using hv
+    rw [hm']; simp [hw]
   · intro n _ hne; simp [htl] at hne
 
 theorem sameJ_popBlock (st : St) (off : Nat) (blk : Block) : SameJ st (popBlock st off blk) := by
@@ -415,7 +420,7 @@ theorem jinv_finishObject {P : Params} {st : St} (w : BW) (T : Nat) (C : Cenc)
       · intro hC
         simp only [complete_cenc, hc] at hC
         exact ⟨T, by simpa using htl, by simpa using hlen (by simpa using hC)⟩
-      · intro m hm hchk _
+      · intro m hm hchk
         simp only [complete_md5] at hm
         simp only [complete_md5Check] at hchk
         simp only [md5Valid, hm, BW.checkMd5, hmd5, hchk] at hv
@@ -584,7 +589,11 @@ theorem jinv_pushToBlock2 (P : Params) (st : St) (p : Pkt) {st' : St} {b : Bool}
           refine ⟨fun _ => ?_, fun hf => (by cases hf)⟩
           cases hl with
           | inl hn => simp only [hn]; exact hj
-          | inr hop => simp only [hop]; exact jinv_complete_zero hj hop (by rw [htl, htl0])
+          | inr hop =>
+            simp only [hop, Option.isSome_some, if_true]
+            split
+            · rename_i hv; exact jinv_complete_zero hj hop (by rw [htl, htl0]) hv
+            · exact jinv_error' _ (hj.jerr (Or.inr hop)) (Or.inr hop)
       · split at h
         · simp at h; obtain ⟨rfl, rfl⟩ := h; exact ⟨fun _ => hj, fun hf => (by cases hf)⟩
         · split at h
@@ -836,9 +845,9 @@ theorem jinv_attachMeta {P : Params} (st : St) (fdtId : Nat) (f : FileEntry) {st
     have h0 := hj.none_ hw
     refine ⟨⟨fun _ => h0, ?_, ?_, ?_⟩, hw⟩ <;> simp [hw]
 
-theorem jinv_attachFdt (P : Params) (st : St) (fdtId : Nat) (file : Option FileEntry) {st' : St} {b : Bool}
-    (hi : Inv st) (hj : JInv P st) (h : attachFdt P st fdtId file = .ok (st', b)) : JInv P st' := by
-  unfold attachFdt at h
+theorem jinv_attachFdtOld (P : Params) (st : St) (fdtId : Nat) (file : Option FileEntry) {st' : St} {b : Bool}
+    (hi : Inv st) (hj : JInv P st) (h : attachFdtOld P st fdtId file = .ok (st', b)) : JInv P st' := by
+  unfold attachFdtOld attachCore at h
   split at h
   · simp at h; rw [← h.1]; exact hj
   · rename_i hf
@@ -888,6 +897,17 @@ theorem jinv_attachFdt (P : Params) (st : St) (fdtId : Nat) (file : Option FileE
                 · rename_i st6 h6
                   simp at h; rw [← h.1]
                   exact jinv_pushFromCache _ _ i6 j6 h6
+
+
+theorem jinv_reset {P : Params} {st : St} (hj : JInv P st) (hw : st.writer = none) : JInv P (resetOti st) := by
+  have h0 := hj.none_ hw
+  refine ⟨fun _ => h0, ?_, ?_, ?_⟩ <;> (intro hx; simp [resetOti, hw] at hx)
+
+theorem jinv_attachFdt (P : Params) (st : St) (fdtId : Nat) (file : Option FileEntry) {st' : St} {b : Bool}
+    (hi : Inv st) (hj : JInv P st) (h : attachFdt P st fdtId file = .ok (st', b)) : JInv P st' := by
+  rcases attachFdt_cases h with h0 | ⟨f, rfl, hw, _, h1⟩
+  · exact jinv_attachFdtOld P st fdtId file hi hj h0
+  · exact jinv_attachFdtOld P (resetOti st) fdtId _ (inv_reset hi) (jinv_reset hj hw) h1
 
 theorem jinv_new (P : Params) (toi m : Nat) : JInv P (St.new toi m) := by
   refine ⟨fun _ => ⟨rfl, trivial⟩, ?_, ?_, ?_⟩ <;> simp [St.new]
